@@ -113,6 +113,9 @@ def gen_configs(tier, seed):
         # multicast fan-out around a local member whose loop option is off (join order, other members still served)
         ("gen_mcloop", base_consts(DstPorts={1}, DstKinds={"mc"}, Ops={"join", "setml", "send", "recv"}, Bufs={8},
                                    MaxSend=1, MaxSock=2, MaxCtl=3, MaxLen=5 if q else 6, Grouped=True, MaxRecv=1), None),
+        # broadcast fan-out incl. the sender's own host under every combination of the broadcast / loop options
+        ("gen_bcloop", base_consts(DstPorts={1}, DstKinds={"bcast"}, Ops={"setbc", "setml", "send", "recv"}, Bufs={8},
+                                   MaxSend=1, MaxSock=2, MaxCtl=2, MaxLen=5, Grouped=True, MaxRecv=2), None),
         # a backlog of `capacity` datagrams, partial consumption through readable() / recv_from, then an overrun:
         # only capacity - unread (+ the one readable() parks) more may be accepted (final queue contents compared)
         ("gen_backlog", base_consts(Cap=2, DstPorts={1}, DstKinds={"lo"}, Ops={"send", "recv", "readable"}, Bufs={8},
